@@ -330,7 +330,7 @@ func runNest(c *hx.Ctx, k nestCase, sample []int) {
 	fileOp(c, cf.data, inflateTable(scanInflate(cf.data)), xref, sample, answers)
 	// (2) the sequence on one reader
 	var seq []string
-	var vals []string
+	var vals, dvals []string
 	if !c.Guard("C04", k, 20, func() {
 		rd, err := reader.Open(path)
 		if err != nil {
@@ -342,11 +342,14 @@ func runNest(c *hx.Ctx, k nestCase, sample []int) {
 				rd.ClearCache()
 				seq = append(seq, "-")
 				vals = append(vals, "")
+				dvals = append(dvals, "-")
 				continue
 			}
 			n, _ := sp.numOf(op)
-			v := renderLookup(rd.GetObject(n))
+			obj, err := rd.GetObject(n)
+			v := renderLookup(obj, err)
 			vals = append(vals, v)
+			dvals = append(dvals, renderDeepLookup(obj, err))
 			if v == "e" {
 				seq = append(seq, "0")
 			} else {
@@ -362,6 +365,20 @@ func runNest(c *hx.Ctx, k nestCase, sample []int) {
 	}
 	if len(k.Ops) > 0 {
 		c.Op(fmt.Sprintf("c04.nest %d %s %s", sp.D, top, strings.Join(k.Ops, ",")), strings.Join(seq, ","))
+		// the same sequence against the reader's caches modelled on the bytes of any file
+		// (Model/XrefCached.lean), the values at full depth
+		var gops, gvals []string
+		for i, op := range k.Ops {
+			if op == "c" {
+				gops, gvals = append(gops, "c"), append(gvals, "-")
+				continue
+			}
+			n, _ := sp.numOf(op)
+			gops, gvals = append(gops, fmt.Sprintf("g%d", n)), append(gvals, dvals[i])
+		}
+		if len(dvals) == len(k.Ops) {
+			apiOp(c, cf.data, inflateTable(scanInflate(cf.data)), 0, "full", gops, gvals)
+		}
 	}
 	for i, op := range k.Ops {
 		if op == "c" || i >= len(vals) {
@@ -851,6 +868,15 @@ func runDeep(c *hx.Ctx, k deepCase) {
 		return
 	}
 	c.Count(fmt.Sprintf("deep-%s-%d", k.Deep, k.L))
+	// the same file against the model of ResolveDeep and of the resolver package (values
+	// probed, not rendered: a shared graph has 2^L paths)
+	// (the model parses an object from the bytes of the whole rest of the file: the long
+	// chains are left to the thorough tier, 20000 objects to the oracles)
+	if last := k.L; last <= 400 || last == 1000 || (c.Thorough() && last <= 3000) {
+		runApiOn(c, k, data, "_", 0, "probe", []string{"D1", "y1", "D1", "p1", "s1", "z1",
+			fmt.Sprintf("p%d", last), fmt.Sprintf("y%d", max(1, last-1)), "p1", "E1", "c", "q1", fmt.Sprintf("D%d", (last+1)/2), "R", "x1"})
+		c.Count("deep-api-op")
+	}
 	same := (viaReader.err == nil) == (again.err == nil)
 	c.Check("C04/answer-depends-on-earlier-lookups", same, k, func() string {
 		return fmt.Sprintf("ResolveDeep(1 0 R) first err=%v, again on the same reader err=%v", viaReader.err, again.err)
